@@ -304,10 +304,10 @@ class DurationTypeIO(GraphSONTypeIO):
     cql_type = 'duration'
 
     _duration_regex = re.compile(r"""
-        ^P((?P<days>\d+)D)?
-        T((?P<hours>\d+)H)?
-        ((?P<minutes>\d+)M)?
-        ((?P<seconds>[0-9.]+)S)?$
+        ^P((?P<days>-?\d+)D)?
+        T((?P<hours>-?\d+)H)?
+        ((?P<minutes>-?\d+)M)?
+        ((?P<seconds>-?[0-9.]+)S)?$
     """, re.VERBOSE)
     _duration_format = "P{days}DT{hours}H{minutes}M{seconds}S"
 
@@ -317,14 +317,19 @@ class DurationTypeIO(GraphSONTypeIO):
 
     @classmethod
     def serialize(cls, value, writer=None):
-        total_seconds = int(value.total_seconds())
+        # exact integer arithmetic on microseconds; a negative duration carries its sign
+        # on every component (the form java.time.Duration.parse accepts, e.g. PT-0.5S)
+        total_micros = (value.days * cls._seconds_in_day + value.seconds) * 1000000 + value.microseconds
+        sign = '-' if total_micros < 0 else ''
+        total_seconds, micros = divmod(abs(total_micros), 1000000)
         days, total_seconds = divmod(total_seconds, cls._seconds_in_day)
         hours, total_seconds = divmod(total_seconds, cls._seconds_in_hour)
-        minutes, total_seconds = divmod(total_seconds, cls._seconds_in_minute)
-        total_seconds += value.microseconds / 1e6
+        minutes, seconds = divmod(total_seconds, cls._seconds_in_minute)
+        seconds = '%d.%06d' % (seconds, micros) if micros else '%d.0' % seconds
 
         return cls._duration_format.format(
-            days=int(days), hours=int(hours), minutes=int(minutes), seconds=total_seconds
+            days='%s%d' % (sign, days), hours='%s%d' % (sign, hours),
+            minutes='%s%d' % (sign, minutes), seconds=sign + seconds
         )
 
     @classmethod
@@ -333,10 +338,16 @@ class DurationTypeIO(GraphSONTypeIO):
         if duration is None:
             raise ValueError('Invalid duration: {0}'.format(value))
 
-        duration = {k: float(v) if v is not None else 0
+        duration = {k: v if v is not None else '0'
                     for k, v in duration.groupdict().items()}
-        return datetime.timedelta(days=duration['days'], hours=duration['hours'],
-                                  minutes=duration['minutes'], seconds=duration['seconds'])
+        # whole and fractional seconds separately: no float ever holds more than six digits
+        whole, _, fraction = duration['seconds'].partition('.')
+        micros = round(float('0.' + (fraction or '0')) * 1000000)
+        if whole.startswith('-'):
+            micros = -micros
+        return datetime.timedelta(days=int(duration['days']), hours=int(duration['hours']),
+                                  minutes=int(duration['minutes']), seconds=int(whole or '0'),
+                                  microseconds=micros)
 
 
 class DseDurationTypeIO(GraphSONTypeIO):
